@@ -49,5 +49,20 @@ for fn in sorted(os.listdir(pkg)):
                 if isinstance(b, (ast.FunctionDef, ast.AsyncFunctionDef)):
                     names.append(st.name + "." + b.name)
     fref[fn[:-3]] = sorted(set(names))
+    # constants of the reference tree (module level and class level); sa/constprop.py writes out every other one
+    cn = []
+    for st in tree.body:
+        if isinstance(st, ast.Assign):
+            for t in st.targets:
+                for x in ast.walk(t):
+                    if isinstance(x, ast.Name):
+                        cn.append(x.id)
+        elif isinstance(st, ast.ClassDef):
+            for b in st.body:
+                if isinstance(b, ast.Assign):
+                    for t in b.targets:
+                        if isinstance(t, ast.Name):
+                            cn.append(st.name + "." + t.id)
+    fref[fn[:-3] + "#constants"] = sorted(set(cn))
 json.dump(fref, open(os.path.join(ROOT, "spec", "functions_ref.json"), "w"), indent=0, sort_keys=True)
 print("functions:", len(out), "locals:", sum(len(v[0]) for v in out.values()))
